@@ -272,6 +272,17 @@ def local_env(f):
             ini = e['init']
             if (ini.startswith(ROOTS) or ini.startswith('*(') or ini.startswith('&(')) and (e.get('ref') or not depends_on_written(ini)):
                 env['local:' + e['var']] = ini
+    # a local that names an arithmetic expression over values that cannot change (parameters never assigned, literals, sizeof, earlier
+    # such locals): const std::size_t need = sz + 1;  reads of `need` are reads of (sz + 1)
+    ATOM = r'(?:param:\w+|local:\w+|\d+|sizeof\([^()]*(?:\([^()]*\))?[^()]*\)|global:[\w:<>, ]+)'
+    for e in f.events():
+        if e.k == 'decl' and e.get('init') and assigned['local:' + e['var']] == 0 and not (e.get('ref') or e.get('ptr')) and e['init'].startswith('('):
+            ini = e['init']
+            if not re.fullmatch(r'[()\s]*' + ATOM + r'(?:[()\s]*[-+*/][()\s]*' + ATOM + r')+[()\s]*', ini):
+                continue
+            atoms = re.findall(r'param:\w+|local:\w+', ini)
+            if all((a not in written) and (a.startswith('param:') or a in env) for a in atoms):
+                env['local:' + e['var']] = ini
     for _ in range(3):
         for k in list(env):
             env[k] = subst_path(env[k], {kk: vv for kk, vv in env.items() if kk != k})
